@@ -2,6 +2,8 @@ package exec
 
 import (
 	"fmt"
+	"os"
+	"time"
 	"go/constant"
 	"go/token"
 	"go/types"
@@ -34,6 +36,11 @@ func (st *State) get(fr *Frame, v ssa.Value) Value {
 	r := fr.regs[idx]
 	if r == nil {
 		panic(st.unsupported(fmt.Sprintf("read of undefined register %s", v.Name())))
+	}
+	if n, ok := r.(*term.Node); ok && n.Op == term.OpVar && len(st.subst) > 0 {
+		if c, bound := st.subst[n]; bound {
+			return c
+		}
 	}
 	return r
 }
@@ -206,11 +213,17 @@ func (st *State) run() {
 		fr := g.frames[len(g.frames)-1]
 		if st.spec != nil {
 			sp := st.spec
-			if g == sp.g && fr == sp.frame && fr.block == sp.join && fr.ip == 0 {
-				return
-			}
-			if g == sp.g && len(g.frames) < sp.depth {
-				panic(specAbort{"return from branching frame"})
+			if sp.join == nil {
+				if g == sp.g && len(g.frames) < sp.depth {
+					return // the branching frame has returned (return-merge mode)
+				}
+			} else {
+				if g == sp.g && fr == sp.frame && fr.block == sp.join && fr.ip == 0 {
+					return
+				}
+				if g == sp.g && len(g.frames) < sp.depth {
+					panic(specAbort{"return from branching frame"})
+				}
 			}
 			sp.steps++
 			if sp.steps > st.inst.MergeStepLimit {
@@ -222,12 +235,69 @@ func (st *State) run() {
 		}
 		st.steps++
 		st.pathSteps++
+		if st.steps&1023 == 0 && !st.deadline.IsZero() && time.Now().After(st.deadline) {
+			panic(Unsupported{fmt.Sprintf("time limit of %s exceeded at %s (paths so far %d, forks %d, merges %d, aborts %d, feasibility queries %d)", st.inst.TimeLimit, st.where(), st.res.Paths, st.res.Forks, st.res.Merges, st.res.MergeAborts, st.solver.Queries)})
+		}
 		if st.pathSteps > st.stepLimit {
 			panic(Unsupported{fmt.Sprintf("unwinding assertion: path exceeds %d interpreted instructions at %s", st.stepLimit, st.where())})
 		}
+		if fr.ip >= len(fr.block.Instrs) {
+			panic(Unsupported{fmt.Sprintf("internal: ip %d beyond block %d of %s (prev %v) forced=%v pos=%d", fr.ip, fr.block.Index, fr.fn, fr.prev, st.forced, st.forcedPos)})
+		}
 		instr := fr.block.Instrs[fr.ip]
-		st.step(fr, instr)
+		if traceFilter != "" && strings.Contains(fr.fn.String(), traceFilter) {
+			st.traceInstr(fr, instr)
+		} else {
+			st.step(fr, instr)
+		}
 	}
+}
+
+var traceFilter = os.Getenv("VP_TRACE")
+
+func (st *State) traceInstr(fr *Frame, instr ssa.Instruction) {
+	spec := ""
+	if st.spec != nil {
+		spec = "[spec] "
+	}
+	st.step(fr, instr)
+	if v, ok := instr.(ssa.Value); ok {
+		if idx, ok := fr.info.Reg[v]; ok && fr.regs[idx] != nil {
+			fmt.Fprintf(os.Stderr, "%s%s b%d: %s = %s  => %s\n", spec, fr.fn.Name(), instr.Block().Index, v.Name(), instr, fmtVal(fr.regs[idx]))
+			return
+		}
+	}
+	fmt.Fprintf(os.Stderr, "%s%s b%d: %s\n", spec, fr.fn.Name(), instr.Block().Index, instr)
+}
+
+func fmtVal(v Value) string {
+	switch x := v.(type) {
+	case *term.Node:
+		if x.IsConst() {
+			return x.String()
+		}
+		return fmt.Sprintf("sym(n%d op%d w%d)", x.ID, x.Op, x.W)
+	case Ptr:
+		return x.String()
+	case Slice:
+		if x.Obj == nil {
+			return "slice(nil)"
+		}
+		return fmt.Sprintf("slice(o%d+%d len %d cap %d)", x.Obj.Serial, x.Off, x.Len, x.Cap)
+	case Mux:
+		s := "mux{"
+		for i := range x.V {
+			s += fmtVal(x.V[i]) + " | "
+		}
+		return s + "}"
+	case Agg:
+		s := "("
+		for _, e := range x {
+			s += fmtVal(e) + ", "
+		}
+		return s + ")"
+	}
+	return fmt.Sprintf("%T", v)
 }
 
 func (st *State) jump(fr *Frame, to *ssa.BasicBlock) {
@@ -460,6 +530,12 @@ func (st *State) execIf(fr *Frame, in *ssa.If) {
 		return
 	}
 	notc := st.b.BNot(c)
+	if st.forcedPos < len(st.forced) {
+		// re-execution after backtracking: the decision was taken before (and merging was ruled out then)
+		k := st.chooseWithModels([]*term.Node{c, notc}, nil)
+		st.jump(fr, fr.block.Succs[k])
+		return
+	}
 	// feasibility of both sides
 	okT, mT := st.feasible(c)
 	okF, mF := st.feasible(notc)
@@ -517,6 +593,7 @@ type cellKey struct {
 }
 
 type armResult struct {
+	ret     Value
 	writes  map[cellKey]Value
 	order   []cellKey
 	phis    []Value
@@ -535,6 +612,18 @@ func (st *State) runArm(fr *Frame, succ *ssa.BasicBlock, join *ssa.BasicBlock, g
 	savedDefers := len(fr.defers)
 	depth := len(g.frames)
 	savedForks := len(st.cps)
+	savedDec := len(st.decisions)
+	var caller *Frame
+	var callerIP int
+	var callerReg Value
+	if depth >= 2 {
+		// an arm may return from the branching frame (which advances the caller): always restore the caller
+		caller = g.frames[depth-2]
+		callerIP = caller.ip
+		if fr.retReg >= 0 {
+			callerReg = caller.regs[fr.retReg]
+		}
+	}
 	var steps int
 	if savedSpec != nil {
 		steps = savedSpec.steps
@@ -555,16 +644,29 @@ func (st *State) runArm(fr *Frame, succ *ssa.BasicBlock, join *ssa.BasicBlock, g
 					panic(r)
 				}
 			}
+			if sa, isA := r.(specAbort); isA && st.res.AbortReasons != nil {
+				st.res.AbortReasons[sa.reason+" @ "+fr.fn.Name()]++
+			}
 			st.cur = g
 			g.frames = g.frames[:depth]
 			ok = false
 		}
 		st.rollback(mark)
 		st.pc = savedPC
+		st.rebuildSubst()
+		st.decisions = st.decisions[:savedDec]
 		st.setModel(savedModel)
 		st.spec = savedSpec
 		fr.block, fr.prev, fr.ip = savedBlock, savedPrev, savedIP
 		copy(fr.regs, savedRegs)
+		if caller != nil {
+			g.frames = g.frames[:depth]
+			g.frames[depth-1] = fr
+			caller.ip = callerIP
+			if fr.retReg >= 0 {
+				caller.regs[fr.retReg] = callerReg
+			}
+		}
 		if len(fr.defers) != savedDefers {
 			fr.defers = fr.defers[:savedDefers]
 			ok = false
@@ -577,12 +679,30 @@ func (st *State) runArm(fr *Frame, succ *ssa.BasicBlock, join *ssa.BasicBlock, g
 		n = st.pc.n + 1
 	}
 	st.pc = &pcList{cond: guard, prev: st.pc, n: n}
+	st.noteBinding(guard)
 	armBase := st.pc
 	st.setModel(m)
 	st.jump(fr, succ)
 	st.run()
 	if savedSpec != nil {
 		savedSpec.steps = st.spec.steps
+	}
+	// A register that already had a value before the arm and has a different one now belongs to a
+	// block that was re-entered (loop header, range iterator): its new value would be live after the
+	// join, which the merge below cannot express -> fork instead.
+	for i, v := range fr.regs {
+		if join == nil {
+			break
+		}
+		if savedRegs[i] != nil && v != nil && !st.sameValue(savedRegs[i], v) {
+			if _, isIter := v.(*RangeIter); isIter {
+				panic(specAbort{"iterator advanced inside arm"})
+			}
+			// only definitions whose block dominates the join are live after it
+			if in, ok := fr.info.Vals[i].(ssa.Instruction); ok && in.Block() != nil && in.Block().Dominates(join) {
+				panic(specAbort{"loop-carried register redefined inside arm"})
+			}
+		}
 	}
 	// collect effects
 	res = &armResult{writes: map[cellKey]Value{}}
@@ -603,6 +723,16 @@ func (st *State) runArm(fr *Frame, succ *ssa.BasicBlock, join *ssa.BasicBlock, g
 	}
 	if res.mapW {
 		panic(specAbort{"map or channel mutation in arm"})
+	}
+	if join == nil {
+		if fr.retReg >= 0 {
+			res.ret = caller.regs[fr.retReg]
+		}
+		return res, true
+	}
+	if st.spec.landed {
+		res.phis = st.spec.landedPhis
+		return res, true
 	}
 	predIdx := -1
 	for i, p := range join.Preds {
@@ -628,10 +758,21 @@ func (st *State) tryMerge(fr *Frame, c *term.Node, mT, mF *term.Model) bool {
 	if fr.info.IPDom != nil {
 		join = fr.info.IPDom[fr.block.Index]
 	}
+	var jb *ssa.BasicBlock
 	if join < 0 {
-		return false
+		// no common block before the function exit: merge at the return, if this frame has a
+		// caller waiting for an ordinary call result
+		g := st.cur
+		if len(g.frames) < 2 || len(fr.defers) > 0 {
+			return false
+		}
+		caller := g.frames[len(g.frames)-2]
+		if _, isRD := caller.block.Instrs[caller.ip].(*ssa.RunDefers); isRD {
+			return false
+		}
+	} else {
+		jb = fr.fn.Blocks[join]
 	}
-	jb := fr.fn.Blocks[join]
 	notc := st.b.BNot(c)
 	// obligations created inside arms must not be flushed with a wrong pc: flush what we have first
 	if st.spec == nil {
@@ -685,6 +826,15 @@ func (st *State) tryMerge(fr *Frame, c *term.Node, mT, mF *term.Model) bool {
 		}
 		phiVals = append(phiVals, mv)
 	}
+	var retVal Value
+	if jb == nil && fr.retReg >= 0 {
+		mv, ok := st.mergeValues(c, ra.ret, rb.ret)
+		if !ok {
+			st.res.MergeAborts++
+			return false
+		}
+		retVal = mv
+	}
 	for _, u := range upds {
 		st.write(u.k.obj, u.k.off, u.v)
 	}
@@ -702,6 +852,21 @@ func (st *State) tryMerge(fr *Frame, c *term.Node, mT, mF *term.Model) bool {
 			panic(pathEnd{"infeasible"})
 		}
 		st.setModel(m)
+	}
+	if jb == nil {
+		st.doReturn(fr, retVal)
+		st.res.Merges++
+		return true
+	}
+	if st.spec != nil && st.spec.frame == fr && st.spec.join == jb && st.spec.g == st.cur {
+		// this merge ends at the join block of the enclosing arm: hand the merged phi values to it
+		st.spec.landed = true
+		st.spec.landedPhis = phiVals
+		fr.prev = fr.block
+		fr.block = jb
+		fr.ip = 0
+		st.res.Merges++
+		return true
 	}
 	fr.prev = fr.block
 	fr.block = jb
@@ -948,6 +1113,34 @@ func (st *State) sameValue(a, b Value) bool {
 	case *ChanObj:
 		y, ok := b.(*ChanObj)
 		return ok && x == y
+	case *RangeIter:
+		y, ok := b.(*RangeIter)
+		return ok && x == y
+	case SymPtr:
+		y, ok := b.(SymPtr)
+		return ok && x.Obj == y.Obj && x.Base == y.Base && x.ES == y.ES && x.N == y.N && x.Idx == y.Idx && x.Sub == y.Sub
+	case Mux:
+		y, ok := b.(Mux)
+		if !ok || len(x.V) != len(y.V) {
+			return false
+		}
+		for i := range x.V {
+			if x.G[i] != y.G[i] || !st.sameValue(x.V[i], y.V[i]) {
+				return false
+			}
+		}
+		return true
+	case RatF:
+		y, ok := b.(RatF)
+		if !ok || len(x.N) != len(y.N) {
+			return false
+		}
+		for i := range x.N {
+			if x.N[i] != y.N[i] || x.D[i] != y.D[i] {
+				return false
+			}
+		}
+		return true
 	case nil:
 		return b == nil
 	}
